@@ -14,7 +14,7 @@ import ast
 import importlib.util
 import re
 from pathlib import Path
-from typing import Dict, List, Optional, Set, Tuple
+from typing import Any, Dict, List, Optional, Set, Tuple
 
 from sa import rst
 from sa.callgraph import callgraph
@@ -115,14 +115,21 @@ def run(rep: Report, tier: str) -> None:
     hm = P.module(HANDLER)
     FIELD_KEYS = {"NAME": "name", "ROLE": "role", "TYPE": "type", "NULLABLE": "nullable"}
     comp_dict = None
+
+    def const_local(name: str) -> Any:
+        cdefs = [d.value for d in walk_no_nested(f.node) if isinstance(d, (ast.Assign, ast.AnnAssign)) and d.value is not None
+                 and any(isinstance(t, ast.Name) and t.id == name for t in (d.targets if isinstance(d, ast.Assign) else [d.target]))]
+        return cdefs[0].value if len(cdefs) == 1 and isinstance(cdefs[0], ast.Constant) else None
+
+    def key_value(k: ast.AST) -> Any:
+        return const_local(k.id) if isinstance(k, ast.Name) else (k.value if isinstance(k, ast.Constant) else None)
+    const_locals = {x.id for x in ast.walk(f.node) if isinstance(x, ast.Name) and isinstance(x.ctx, ast.Store) and const_local(x.id) is not None}
     for n in walk_no_nested(f.node):
         if isinstance(n, ast.Dict) and len(n.keys) >= 4:
             ks = set()
             for k in n.keys:
-                if isinstance(k, ast.Name) and k.id in FIELD_KEYS:
-                    ks.add(FIELD_KEYS[k.id])
-                elif isinstance(k, ast.Constant) and k.value in FIELD_KEYS.values():
-                    ks.add(k.value)
+                if key_value(k) in FIELD_KEYS.values():
+                    ks.add(key_value(k))
             if ks == set(FIELD_KEYS.values()):
                 comp_dict = n
     if comp_dict is None:
@@ -165,10 +172,10 @@ def run(rep: Report, tier: str) -> None:
     mapping_use: Dict[str, List[ast.AST]] = {"VTL_DTYPES_MAPPING": [], "VTL_ROLE_MAPPING": []}
     field_expr: Dict[str, ast.AST] = {}
     for k, v in zip(comp_dict.keys, comp_dict.values):
-        fk = FIELD_KEYS.get(k.id) if isinstance(k, ast.Name) else k.value
+        fk = key_value(k)
         field_expr[fk] = v
         r = roots(v)
-        local_roots = {x for x in r if x not in hm.assigns and x not in hm.imports and x not in hm.functions and x not in FIELD_KEYS}
+        local_roots = {x for x in r if x not in hm.assigns and x not in hm.imports and x not in hm.functions and x not in const_locals}
         rep.instance("R27.3", f"field-source/{fk}", nontrivial=True, sample={"field": fk, "expr": src(v), "roots": sorted(local_roots)})
         if local_roots != {var}:
             rep.add(Finding("R27.3", f"R27.3/field-source/{fk}", f.module.rel, comp_dict.lineno, f.qualname,
